@@ -38,3 +38,14 @@ def cursor(w: Warehouse) -> object:
     import itertools
 
     return itertools.count(w.size)
+
+
+def apply(f: "typing.Callable[[int], int]", x: int) -> int:
+    """A callable parameter (the factory emits a lambda for it)."""
+    try:
+        return f(x)
+    except TypeError:
+        return -1
+
+
+import typing  # noqa: E402
